@@ -644,3 +644,234 @@ def root_body(prog, body):
 
 def in_root(body, *roots):
     return body.root in roots or any(body.root.startswith(r + "::") for r in roots)
+
+
+# --------------------------------------------------------------------------
+# E7 — panic sites
+
+PANIC_CALLEES = (
+    "core::panicking::panic", "core::panicking::panic_fmt", "core::panicking::panic_display",
+    "core::panicking::unreachable_display", "core::panicking::panic_explicit", "std::rt::begin_panic",
+    "core::panicking::assert_failed", "core::panicking::panic_nounwind", "core::option::unwrap_failed",
+    "core::result::unwrap_failed", "core::option::expect_failed", "core::panicking::panic_const::panic_const_add_overflow",
+)
+UNWRAPS = ("core::option::Option::unwrap", "core::option::Option::expect", "core::result::Result::unwrap",
+           "core::result::Result::expect", "core::result::Result::unwrap_err", "core::result::Result::expect_err")
+INDEXING = ("core::ops::index::Index::index", "core::ops::index::IndexMut::index_mut")
+PANIC_MACROS = ("unimplemented", "todo", "unreachable", "panic", "assert", "assert_eq", "assert_ne",
+                "debug_assert", "debug_assert_eq", "debug_assert_ne")
+
+
+class PanicSite:
+    def __init__(self, body, bb, kind, detail, mac):
+        self.body = body
+        self.bb = bb
+        self.kind = kind        # assert:<what> / macro:<name> / unwrap / expect / index / panic-call
+        self.detail = detail
+        self.mac = mac or []
+
+    def loc(self):
+        return self.body.loc(self.bb, "term")
+
+    def key(self):
+        return "%s|%s|%s" % (self.body.path, self.kind, self.detail)
+
+    def __repr__(self):
+        return "<%s %s %s @%s>" % (self.kind, self.detail, self.body.path, self.loc())
+
+
+def panic_sites(body):
+    out = []
+    for bb in sorted(body.live_blocks()):
+        t = body.blocks[bb]["term"]
+        mac = t.get("mac") or []
+        if t["t"] == "assert":
+            msg = t["msg"]
+            what = msg.split("(")[0]
+            import re as _re
+            out.append(PanicSite(body, bb, "assert:" + what,
+                                 _re.sub(r"(move |copy )?\(?\*?_\d+\)?(\.\d+)*", "_", msg)[:80], mac))
+        elif t["t"] == "call" and "fn" in t["func"]:
+            f = t["func"]
+            user_mac = [m for m in mac if m in PANIC_MACROS]
+            if callee_is(f, *PANIC_CALLEES) or strip_generics(f["fn"]).startswith("core::panicking::"):
+                kind = "macro:" + user_mac[-1] if user_mac else "panic-call"
+                out.append(PanicSite(body, bb, kind, strip_generics(f["fn"]).rsplit("::", 1)[-1], mac))
+            elif callee_is(f, *UNWRAPS):
+                if "desugar:Await" in mac or "select" in mac or "pin" in mac:
+                    continue
+                out.append(PanicSite(body, bb, strip_generics(f["fn"]).rsplit("::", 1)[-1],
+                                     strip_generics(f["fn"]).split("::")[2], mac))
+            elif callee_is(f, *INDEXING):
+                idx = strip_generics((f.get("gargs") or ["?", "?"])[-1])
+                if idx == "core::ops::range::RangeFull":
+                    continue            # `x[..]` cannot fail
+                out.append(PanicSite(body, bb, "index", "%s[%s]" % (strip_generics(f.get("self_ty", "?"))[:50], idx), mac))
+    return out
+
+
+def callees_local(prog, body):
+    """workspace bodies directly called from `body` (resolved instances where possible; for calls on
+    generic parameters: every workspace impl of that trait method — class-hierarchy analysis)."""
+    out = []
+    for bb, t in body.calls():
+        f = t["func"]
+        if "fn" not in f:
+            continue
+        names = fn_names(f)
+        hit = False
+        for n in reversed(names):
+            bs = prog.bodies_at(n)
+            if bs:
+                out.extend(bs)
+                hit = True
+                break
+        if not hit and callee_is(f, "core::convert::Into::into", "core::convert::TryInto::try_into"):
+            src = (f.get("gargs") or ["?"])[0]
+            for cand in conversion_impls(prog):
+                if len(cand.impl_trait_args) > 1 and strip_generics(cand.impl_trait_args[1]) == strip_generics(src):
+                    out.append(cand)
+                    hit = True
+        if not hit and f.get("trait") and "resolved" not in f:
+            nm = f.get("name")
+            tr = strip_generics(f["trait"])
+            if tr.startswith(("p2panda",)):
+                for lz in prog.lazy:
+                    if lz.path == lz.root and lz.path.endswith("::" + nm) and (" as %s>" % tr) in lz.path \
+                            or (lz.path == lz.root and lz.path.endswith("::" + nm)
+                                and ("<impl %s for " % tr) in lz.path):
+                        out.append(lz.get())
+    return out
+
+
+def conversion_impls(prog):
+    c = getattr(prog, "_conv", None)
+    if c is None:
+        c = [lz.get() for lz in prog.lazy if lz.path == lz.root and
+             ("impl core::convert::From for" in lz.path or "impl core::convert::TryFrom for" in lz.path
+              or " as core::convert::From>" in lz.path or " as core::convert::TryFrom>" in lz.path)]
+        prog._conv = c
+    return c
+
+
+def reachable_bodies(prog, roots, stay=None, limit=4000):
+    """closure of roots under `calls` and `contains closure/coroutine`; `stay(body)` restricts."""
+    seen = {}
+    work = list(roots)
+    while work and len(seen) < limit:
+        b = work.pop()
+        if b.path in seen:
+            continue
+        if stay is not None and not stay(b):
+            continue
+        seen[b.path] = b
+        for c in prog.children(b):
+            if c.path not in seen:
+                work.append(c)
+        for c in callees_local(prog, b):
+            if c.path not in seen:
+                work.append(c)
+    return list(seen.values())
+
+
+def deep_locals(body, operand):
+    """all locals in the full backward closure of an operand (every call is transparent in all args)"""
+    start = op_place(operand) if not isinstance(operand, Place) else operand
+    if start is None:
+        return set(), set()
+    seen = set()
+    params = set()
+    work = [start.local]
+    aw = {a.result: a for a in awaits(body) if a.result is not None} if body.kind == "coroutine" else {}
+    while work:
+        l = work.pop()
+        if l in seen:
+            continue
+        seen.add(l)
+        if 1 <= l <= body.arg_count:
+            params.add(l)
+        for d in body.defs_of(l):
+            if d[0] == "assign":
+                rv = d[3]
+                for key in ("op", "a", "b"):
+                    p = op_place(rv.get(key)) if isinstance(rv.get(key), dict) else None
+                    if p is not None:
+                        work.append(p.local)
+                if "place" in rv:
+                    work.append(rv["place"][0])
+                for x in rv.get("ops", []):
+                    p = op_place(x)
+                    if p is not None:
+                        work.append(p.local)
+            elif d[0] == "call":
+                for a in d[3]["args"]:
+                    p = op_place(a)
+                    if p is not None:
+                        work.append(p.local)
+        for bb, k, pl, rv, st in body.assigns():
+            if pl.local == l and pl.proj:
+                for key in ("op",):
+                    p = op_place(rv.get(key)) if isinstance(rv.get(key), dict) else None
+                    if p is not None:
+                        work.append(p.local)
+        # values pushed into a collection held in l: `Vec::push(&mut l, x)` etc.
+        for bb, t in body.calls():
+            if t["args"]:
+                p0 = op_place(t["args"][0])
+                if p0 is not None and p0.local in seen and len(t["args"]) > 1 and \
+                        fname(t["func"]).rsplit("::", 1)[-1] in ("push", "push_back", "insert", "extend"):
+                    for a in t["args"][1:]:
+                        p = op_place(a)
+                        if p is not None:
+                            work.append(p.local)
+        if l in aw and aw[l].create is not None:
+            for a in aw[l].create["args"]:
+                p = op_place(a)
+                if p is not None:
+                    work.append(p.local)
+    return seen, params
+
+
+def nonempty_guarded(body, site_bb, operand):
+    """site is dominated by the `not empty` edge of an emptiness / length test on a value that shares its
+    provenance with `operand` (is_empty()==false, len()>0, len()>=1, len()!=0, first()/last() is Some)."""
+    locs, params = deep_locals(body, operand)
+    for c in sem_calls(body):
+        nm = c.name.rsplit("::", 1)[-1]
+        if nm != "is_empty" or not c.args:
+            continue
+        l2, p2 = deep_locals(body, c.args[0])
+        if not ((l2 & locs) or (p2 & params)):
+            continue
+        for br in branches_on(body, c.result, c.done_bb):
+            e = br.edge("false")
+            if e and edge_dominates(body, e, site_bb):
+                return c
+    # len() comparisons
+    for bb, k, pl, rv, st in body.assigns():
+        if rv["k"] != "bin" or rv["op"] not in ("Gt", "Ge", "Ne", "Lt", "Le", "Eq"):
+            continue
+        for side, other in (("a", "b"), ("b", "a")):
+            p = op_place(rv[side])
+            c = op_const(rv[other])
+            if p is None or c is None or "int" not in c:
+                continue
+            l2, p2 = deep_locals(body, rv[side])
+            if not ((l2 & locs) or (p2 & params)):
+                continue
+            n = c["int"]
+            op = rv["op"]
+            if side == "b":
+                op = {"Gt": "Lt", "Lt": "Gt", "Ge": "Le", "Le": "Ge"}.get(op, op)
+            truth = None
+            if (op == "Gt" and n >= 0) or (op == "Ge" and n >= 1) or (op == "Ne" and n == 0):
+                truth = "true"
+            elif (op == "Eq" and n == 0) or (op == "Lt" and n <= 1) or (op == "Le" and n <= 0):
+                truth = "false"
+            if truth is None:
+                continue
+            for br in branches_on(body, pl.local, bb):
+                e = br.edge(truth)
+                if e and edge_dominates(body, e, site_bb):
+                    return (bb, k)
+    return None
